@@ -1547,6 +1547,17 @@ func (m *batchLocateRangesMerger) appendKeyLocation(r *Region) {
 	})
 }
 
+// coveredByLastEndKey reports whether the cached region ends at or before the end
+// of the last appended uncached region. An empty end key means +inf, which a
+// bounded lastEndKey never covers.
+func (m *batchLocateRangesMerger) coveredByLastEndKey(cachedRegion *Region) bool {
+	if m.lastEndKey == nil {
+		return false
+	}
+	endKey := cachedRegion.EndKey()
+	return len(endKey) != 0 && bytes.Compare(*m.lastEndKey, endKey) >= 0
+}
+
 func (m *batchLocateRangesMerger) appendRegion(uncachedRegion *Region) {
 	defer func() {
 		endKey := uncachedRegion.EndKey()
@@ -1570,7 +1581,7 @@ func (m *batchLocateRangesMerger) appendRegion(uncachedRegion *Region) {
 		return
 	}
 	for ; m.cachedIdx < len(m.cachedRegions); m.cachedIdx++ {
-		if m.lastEndKey != nil && bytes.Compare(*m.lastEndKey, m.cachedRegions[m.cachedIdx].EndKey()) >= 0 {
+		if m.coveredByLastEndKey(m.cachedRegions[m.cachedIdx]) {
 			// skip the cached region that is covered by the uncached region.
 			continue
 		}
@@ -1586,7 +1597,7 @@ func (m *batchLocateRangesMerger) appendRegion(uncachedRegion *Region) {
 func (m *batchLocateRangesMerger) build() []*KeyLocation {
 	// append the rest cache hit regions
 	for ; m.cachedIdx < len(m.cachedRegions); m.cachedIdx++ {
-		if m.lastEndKey != nil && bytes.Compare(*m.lastEndKey, m.cachedRegions[m.cachedIdx].EndKey()) >= 0 {
+		if m.coveredByLastEndKey(m.cachedRegions[m.cachedIdx]) {
 			// skip the cached region that is covered by the uncached region.
 			continue
 		}
